@@ -389,13 +389,10 @@ def isList : T2 → Bool
   | .list .. => true
   | _ => false
 
-def lineOkB (l : Str) : Bool := oneLine l && !l.contains '\t'
-
 /-- a line that may follow the "\n" line after a list: it begins with a character that is not whitespace (so it does
-    not continue the last item), carries no list marker (adjacent lists are excluded: recorded finding), ends with
-    its only newline -/
+    not continue the last item) and carries no list marker (two lists in a row are excluded) -/
 def stopLineB (s : Str) : Bool :=
-  (match s with | c :: _ => !pyIsSpace c | [] => false) && (parseMarker s).isNone && lineOkB s
+  (match s with | c :: _ => !pyIsSpace c | [] => false) && (parseMarker s).isNone
 
 /-- what is asked of two consecutive siblings: behind a list no list, and a first line that is a `stopLineB` -/
 def sepOk (t t' : T2) : Bool := !isList t || (!isList t' && stopLineB ((write2 t').headD []))
@@ -409,8 +406,7 @@ mutual
       "\n" or has a non-whitespace character after its spaces (`ContLine`); marker + first line is not a thematic break
       (`* * *`, `- - -`);
     * `loose` is the looseness the specification assigns: a loose list has two or more items or an item with two or
-      more blocks; the items of a tight list have one block each;
-    * every written line ends with its only line boundary and contains no tab.
+      more blocks; the items of a tight list have one block each.
     Siblings (`T2.oks`): a list is not followed by a list, and the block that follows a list begins with a
     non-whitespace character and carries no list marker (`sepOk`). -/
 def T2.ok : T2 → Bool
@@ -423,7 +419,6 @@ def T2.ok : T2 → Bool
     decide (1 ≤ pad) && decide (pad ≤ 4) && !items.isEmpty && T2.okItems o mk pad n items
       && (if loose then decide (2 ≤ items.length) || items.any (fun it => decide (1 < it.length))
           else items.all (fun it => it.length == 1))
-      && (writeItems o mk pad loose n items).all lineOkB
 def T2.oks : List T2 → Bool
   | [] => true
   | t :: rest => t.ok && T2.oks rest && (match rest with | [] => true | t' :: _ => sepOk t t')
@@ -493,10 +488,10 @@ structure StopLine (s : Str) : Prop where
   mark : parseMarker s = none
   nl : NlEnd s
 
-theorem stopLine_of (s : Str) (h : stopLineB s = true) : StopLine s := by
-  simp only [stopLineB, lineOkB, Bool.and_eq_true, Option.isNone_iff_eq_none, Bool.not_eq_eq_eq_not, Bool.not_true] at h
-  obtain ⟨⟨h1, h2⟩, h3, h4⟩ := h
-  refine ⟨?_, h2, lineOk_nlEnd (lineOk_of s h3 h4)⟩
+theorem stopLine_of (s : Str) (h : stopLineB s = true) (hl : LineOk s) : StopLine s := by
+  simp only [stopLineB, Bool.and_eq_true, Option.isNone_iff_eq_none] at h
+  obtain ⟨h1, h2⟩ := h
+  refine ⟨?_, h2, lineOk_nlEnd hl⟩
   intro W hW
   cases s with
   | nil => simp at h1
@@ -677,19 +672,60 @@ structure ListOk (o : Bool) (n : Nat) (mk : Char) (pad : Nat) (loose : Bool) (it
   its : T2.okItems o mk pad n items = true
   looseC : (if loose then decide (2 ≤ items.length) || items.any (fun it => decide (1 < it.length))
           else items.all (fun it => it.length == 1)) = true
-  lines : ∀ l ∈ writeItems o mk pad loose n items, LineOk l
   start : o = true → parseNat (natDigits n) = n
 
 theorem listOk_of (o : Bool) (n : Nat) (mk : Char) (pad : Nat) (loose : Bool) (items : List (List T2))
     (h : (T2.list o n mk pad loose items).ok = true) : ListOk o n mk pad loose items := by
-  simp only [T2.ok, Bool.and_eq_true, decide_eq_true_eq, Bool.not_eq_eq_eq_not, Bool.not_true, List.isEmpty_eq_false_iff,
-    List.all_eq_true] at h
-  obtain ⟨⟨⟨⟨⟨a, b⟩, c⟩, d⟩, e⟩, f⟩ := h
-  refine ⟨a, b, c, d, e, ?_, fun _ => parseNat_natDigits n⟩
-  intro l hl
-  have := f l hl
-  simp only [lineOkB, Bool.and_eq_true, Bool.not_eq_eq_eq_not, Bool.not_true] at this
-  exact lineOk_of l this.1 this.2
+  simp only [T2.ok, Bool.and_eq_true, decide_eq_true_eq, Bool.not_eq_eq_eq_not, Bool.not_true, List.isEmpty_eq_false_iff] at h
+  obtain ⟨⟨⟨⟨a, b⟩, c⟩, d⟩, e⟩ := h
+  exact ⟨a, b, c, d, e, fun _ => parseNat_natDigits n⟩
+
+/-- the characters of a marker are no line boundaries and no tabs -/
+theorem leader_chars (o : Bool) (m : Str) (h : leaderOk o m = true) : ∀ c ∈ m, isLineSep c = false ∧ c ≠ '\t' := by
+  cases o with
+  | false =>
+    simp only [leaderOk, Bool.false_eq_true, if_false, Bool.or_eq_true, beq_iff_eq] at h
+    rcases h with (rfl | rfl) | rfl <;> decide
+  | true =>
+    obtain ⟨d, e, rfl, he, _, _, hd⟩ := leaderOk_ordered m h
+    have hdig : ∀ x ∈ asciiDigits, isLineSep x = false ∧ x ≠ '\t' := by decide
+    intro c hc
+    rcases List.mem_append.mp hc with hc | hc
+    · exact hdig c (hd c hc)
+    · simp only [List.mem_singleton] at hc
+      subst hc
+      rcases he with rfl | rfl <;> decide
+
+theorem lineOk_prepend (p s : Str) (hp : ∀ c ∈ p, isLineSep c = false ∧ c ≠ '\t') (h : LineOk s) : LineOk (p ++ s) := by
+  obtain ⟨body, rfl, hb, ht⟩ := h
+  refine ⟨p ++ body, by simp, ?_, ?_⟩
+  · intro c hc
+    rcases List.mem_append.mp hc with hc | hc
+    · exact (hp c hc).1
+    · exact hb c hc
+  · intro hc
+    rcases List.mem_append.mp hc with hc | hc
+    · exact (hp _ hc).2 rfl
+    · exact ht hc
+
+theorem spaces_chars (k : Nat) : ∀ c ∈ List.replicate k ' ', isLineSep c = false ∧ c ≠ '\t' := by
+  intro c hc
+  rw [(List.mem_replicate.mp hc).2]
+  decide
+
+theorem indentDoc_lineOk (o : Bool) (m : Str) (hm : leaderOk o m = true) (pad : Nat) (ls : List Str) (h : ∀ s ∈ ls, LineOk s) :
+    ∀ s ∈ indentDoc m pad ls, LineOk s := by
+  cases ls with
+  | nil => simp [indentDoc]
+  | cons c0 cs =>
+    intro s hs
+    simp only [indentDoc, List.mem_cons, List.mem_map] at hs
+    rcases hs with rfl | ⟨x, hx, rfl⟩
+    · rw [List.append_assoc]
+      refine lineOk_prepend _ _ (leader_chars o m hm) (lineOk_prepend _ _ (spaces_chars pad) (h c0 (by simp)))
+    · split
+      · exact h x (List.mem_cons_of_mem _ hx)
+      · exact lineOk_prepend _ _ (spaces_chars _) (h x (List.mem_cons_of_mem _ hx))
 
 theorem indentDoc_ne (m : Str) (pad : Nat) (ls : List Str) (h : ls ≠ []) : indentDoc m pad ls ≠ [] := by
   cases ls with
@@ -715,6 +751,14 @@ theorem quoteOk2_of (bare : Bool) (kids : List T2) (h : (T2.quote bare kids).ok 
   rcases h.2 with h2 | h2
   · rw [hb] at h2; cases h2
   · exact h2
+
+theorem writeItems_single (o : Bool) (mk : Char) (pad : Nat) (loose : Bool) (n : Nat) (it : List T2) :
+    writeItems o mk pad loose n [it] = indentDoc (leaderOf o n mk) pad (writes2 it) := by simp [writeItems]
+
+theorem writeItems_cons2 (o : Bool) (mk : Char) (pad : Nat) (loose : Bool) (n : Nat) (it it' : List T2) (r : List (List T2)) :
+    writeItems o mk pad loose n (it :: it' :: r) =
+      indentDoc (leaderOf o n mk) pad (writes2 it) ++ (sepS loose ++ writeItems o mk pad loose (n + 1) (it' :: r)) := by
+  simp [writeItems]
 
 theorem writes2_cons2 (t t' : T2) (r : List T2) : writes2 (t :: t' :: r) = write2 t ++ ['\n'] :: writes2 (t' :: r) := by
   simp [writes2]
@@ -746,7 +790,7 @@ theorem write2_lineOk : ∀ (t : T2), t.ok = true → (∀ s ∈ write2 t, LineO
     · simpa using ih.2 hne
   | .list o n mk pad loose items, h => by
     have hl := listOk_of o n mk pad loose items h
-    refine ⟨hl.lines, ?_⟩
+    refine ⟨writeItems_lineOk o mk pad loose n items hl.its, ?_⟩
     simp only [write2]
     cases items with
     | nil => exact absurd rfl hl.ne
@@ -769,6 +813,25 @@ theorem writes2_lineOk : ∀ (ts : List T2), T2.oks ts = true → (∀ s ∈ wri
           · exact lineOk_nl
           · exact ihr.1 s hs
       · intro _; simp
+theorem writeItems_lineOk (o : Bool) (mk : Char) (pad : Nat) (loose : Bool) : ∀ (n : Nat) (items : List (List T2)),
+    T2.okItems o mk pad n items = true → ∀ s ∈ writeItems o mk pad loose n items, LineOk s
+  | _, [], _ => by simp [writeItems]
+  | n, it :: rest, h => by
+    obtain ⟨_, hit, hlead, _, _, hrest⟩ := okItems_cons o mk pad n it rest h
+    have h1 := indentDoc_lineOk o _ hlead pad _ (writes2_lineOk it hit).1
+    have h2 := writeItems_lineOk o mk pad loose (n + 1) rest hrest
+    cases rest with
+    | nil => rw [writeItems_single]; exact h1
+    | cons it' r =>
+      rw [writeItems_cons2]
+      intro s hs
+      rcases List.mem_append.mp hs with hs | hs
+      · exact h1 s hs
+      · rcases List.mem_append.mp hs with hs | hs
+        · cases loose with
+          | false => simp [sepS] at hs
+          | true => simp only [sepS, if_true, List.mem_singleton] at hs; rw [hs]; exact lineOk_nl
+        · exact h2 s hs
 end
 
 
@@ -842,14 +905,6 @@ theorem closed_entry2 (n : Nat) : ∀ (t : T2), isList t = false → closedE (en
   | .hr _, _ => rfl
   | .quote _ _, _ => rfl
   | .list .., h => by simp [isList] at h
-
-theorem writeItems_single (o : Bool) (mk : Char) (pad : Nat) (loose : Bool) (n : Nat) (it : List T2) :
-    writeItems o mk pad loose n [it] = indentDoc (leaderOf o n mk) pad (writes2 it) := by simp [writeItems]
-
-theorem writeItems_cons2 (o : Bool) (mk : Char) (pad : Nat) (loose : Bool) (n : Nat) (it it' : List T2) (r : List (List T2)) :
-    writeItems o mk pad loose n (it :: it' :: r) =
-      indentDoc (leaderOf o n mk) pad (writes2 it) ++ (sepS loose ++ writeItems o mk pad loose (n + 1) (it' :: r)) := by
-  simp [writeItems]
 
 theorem writeItems_head (o : Bool) (mk : Char) (pad : Nat) (loose : Bool) (n : Nat) (it : List T2) (rest : List (List T2))
     (c0 : Str) (cs : List Str) (h : writes2 it = c0 :: cs) :
@@ -1289,7 +1344,7 @@ theorem nodes_cons_list (ti : Bool) (o : Bool) (n : Nat) (mk : Char) (pad : Nat)
   have hstop : StopLine s0 := by
     subst ht
     simp only [sepOk, isList, Bool.not_true, Bool.false_or, Bool.and_eq_true, hs0, List.headD_cons] at hsep'
-    exact stopLine_of s0 hsep'.2
+    exact stopLine_of s0 hsep'.2 (hw'.1 s0 (by rw [hs0]; simp))
   have hhead : ∃ ss', writes2 (t' :: r) ++ sepS tail = s0 :: ss' := by
     cases r with
     | nil => rw [writes2_single, hs0]; exact ⟨_, rfl⟩
